@@ -80,6 +80,23 @@ Theorem C06_gateway_first_claim : forall (l : list groute) (k : string),
 Proof. exact route_first_claim. Qed.
 Print Assumptions C06_gateway_first_claim.
 
+(* EndpointSlices (--enable-endpointslices-api): slice_server drain pname l t = the server the
+   backend gets for target t (none / serving / weight 0) from the slices l of the service, in
+   the order the lister returned them: every ready entry is a server, with drain-support every
+   not ready entry is a server of weight 0.  It is a function of the SET of slices ... *)
+Theorem C06_endpointslices_perm : forall (drain : bool) (pname : string) (l l' : list slice) (t : string * Z),
+  Permutation l l' -> slice_server drain pname l t = slice_server drain pname l' t.
+Proof. exact endpointslices_perm. Qed.
+Print Assumptions C06_endpointslices_perm.
+
+(* ... which a de-duplication keeping the first entry of an address, whatever its readiness,
+   would not be *)
+Theorem C06_endpointslices_dedup_first_refuted :
+  exists (drain : bool) (pname : string) (l l' : list slice) (t : string * Z), Permutation l l' /\
+    slice_server_dedup_first drain pname l t <> slice_server_dedup_first drain pname l' t.
+Proof. exact endpointslices_dedup_first_refuted. Qed.
+Print Assumptions C06_endpointslices_dedup_first_refuted.
+
 (* ================================================================== *)
 (* 2. readConfigKeys: `range ann` inside `range AnnotationPrefix`       *)
 (* ================================================================== *)
